@@ -422,6 +422,20 @@ pub fn module(m: &Value, st: &mut Style) -> String {
         if is_some(&e["addr"]) {
             attrs.push(format!("address({})", st.int(num(&e["addr"]))));
         }
+        // attributes that come first, in the given order (an earlier statement of an attribute that is stated again below)
+        let early: Vec<&str> = arr(&e["oattrs"]).iter().map(s).collect();
+        if !early.is_empty() {
+            if st.coin() && !attrs.is_empty() {
+                // one bracket for all of them
+                let mut all: Vec<String> = early.iter().map(|x| x.to_string()).collect();
+                all.extend(attrs.drain(..));
+                out.push_str(&format!("#[{}]\n", all.join(", ")));
+            } else {
+                for x in &early {
+                    out.push_str(&format!("#[{x}]\n"));
+                }
+            }
+        }
         attr_list(&mut out, &attrs, st);
         out.push_str(&format!(
             "{}extern {}: {};\n",
